@@ -88,7 +88,8 @@ def gen_mesh_spec(rng, kinds):
     if rng.chance(0.6):
         for _ in range(rng.randint(1, 3)):
             s["attrs"].append({"set": rng.choice(SETS), "name": "a%d" % len(s["attrs"]), "type": rng.choice(["bool", "int", "float"]),
-                               "arity": rng.choice([1, 1, 2, 3, 4]), "dense": rng.chance(0.5), "fill": rng.choice([0.3, 0.7, 1.0]), "vseed": rng.below(1 << 20)})
+                               "arity": rng.choice([1, 1, 2, 3, 4]), "dense": rng.chance(0.5), "fill": rng.choice([0.3, 0.7, 1.0]), "vseed": rng.below(1 << 20),
+                               "default": rng.choice([None, None, 1, -1, 7])})
     return s
 
 
@@ -119,7 +120,7 @@ class C04(Sim):
     RULE = ("one run = a pool of 1-3 meshes and one simulated file system; saver / loader / cross-reader / cross-writer / querier / config clients under a "
             "seeded scheduler; distinct = distinct (mesh kinds, (operation, format, switches) sequence); non-trivial = >= 1 file saved or planted and >= 1 load or cross-read judged")
     FAULT_KINDS = ["lexical", "config_flip", "reject"]
-    PROBES = ["float32_coordinates", "dialect_ascii", "dialect_multi_solid", "dialect_interleave", "dialect_relative_indices", "dialect_polylines", "dialect_count_same_line", "dialect_counts_on_header_line", "dialect_face_style", "dialect_vextra", "dialect_ref", "dialect_version", "dialect_nedges", "dialect_normals", "dialect_header", "edge_unmarked", "edited_then_saved", "wild_coordinates", "polygon_to_triangle_format", "attributes_roundtrip", "query_before_save", "resave_after_load", "stl", "hex", "export_edges_off",
+    PROBES = ["custom_default_attribute", "float32_coordinates", "dialect_ascii", "dialect_multi_solid", "dialect_interleave", "dialect_relative_indices", "dialect_polylines", "dialect_count_same_line", "dialect_counts_on_header_line", "dialect_face_style", "dialect_vextra", "dialect_ref", "dialect_version", "dialect_nedges", "dialect_normals", "dialect_header", "edge_unmarked", "edited_then_saved", "wild_coordinates", "polygon_to_triangle_format", "attributes_roundtrip", "query_before_save", "resave_after_load", "stl", "hex", "export_edges_off",
               "crlf", "comments", "exp_floats", "no_final_newline", "cross_read", "cross_write_load", "save_load", "overwrite", "faceless_stl", "ignore_elements", "raw_load"]
     QUICK_RUNS = 2500
     THOROUGH_RUNS = 250000
@@ -176,7 +177,12 @@ class C04(Sim):
                 cont = getattr(m, a["set"], None)
                 if cont is None or len(cont) == 0:
                     continue
-                at = cont.create_attribute(a["name"], PYT[a["type"]], a["arity"], dense=a["dense"])
+                if a.get("default") is not None and not a["dense"] and a["arity"] == 1:
+                    # a sparse attribute with a default of its own: elements never written read (and must be saved) as that value
+                    at = cont.create_attribute(a["name"], PYT[a["type"]], a["arity"], dense=False, default_value=PYT[a["type"]](a["default"]))
+                    self.probes["custom_default_attribute"] += 1
+                else:
+                    at = cont.create_attribute(a["name"], PYT[a["type"]], a["arity"], dense=a["dense"])
                 n = len(cont)
                 for i in range(n):
                     if ((i * 13 + a["vseed"]) % 10) / 10.0 < a["fill"]:
